@@ -127,7 +127,10 @@ fn observe(h: &Handle, config: &RouterConfig, live: &Value, pool: &[Rule], all_i
     }
     let mut pr = Vec::new();
     for q in probes {
-        let raw = request_of(config, q, hdrs);
+        // the raw request is what a client of the library hands over: built WITHOUT the router's configuration (nothing is
+        // lower-cased or rewritten yet); the router normalises it itself (rebuild_request / trace_request)
+        let _ = config;
+        let raw = request_of(&RouterConfig::default(), q, hdrs);
         let req = h.main.rebuild_request(&raw);
         let routes = h.main.match_request(&req);
         let ids = sorted_ids(routes.iter().map(|r| r.id().to_string()).collect());
